@@ -3,6 +3,7 @@ package clusterd
 import (
 	"crypto/sha256"
 	"fmt"
+	"github.com/semafind/semadb/diskstore"
 	"io"
 	"math/rand"
 	"os"
@@ -236,6 +237,44 @@ func RunSync(no int, seed int64, root string, tw *trace.Writer, o SyncOpts) erro
 	for i, k := range s.recs {
 		rinfo = append(rinfo, M{"r": i + 1, "owner": idxOf(s.names, cluster.RendezvousHash(strings.Split(k, "/")[0], neu, 1)[0])})
 	}
+	// "stale:0:copy": the destination of a moving record already holds an OLD version of it (the copy a sender
+	// leaves behind when it dies after the acknowledgement and before its own delete, in an earlier change of
+	// the server list that was later undone): the version without the shards. What the owner hands over replaces it.
+	if o.Fault == "stale:0:copy" {
+		planted := 0
+		for i, k := range s.recs {
+			u := strings.Split(k, "/")[0]
+			dest := idxOf(s.names, cluster.RendezvousHash(u, neu, 1)[0])
+			src := idxOf(s.names, cluster.RendezvousHash(u, old, 1)[0])
+			if dest == src || planted >= 3 {
+				continue
+			}
+			stale := cols[i]
+			stale.ShardIds = nil
+			val, err := msgpack.Marshal(stale)
+			if err != nil {
+				return err
+			}
+			os.MkdirAll(s.roots[dest-1], 0755)
+			db, err := diskstore.Open(filepath.Join(s.roots[dest-1], "nodedb.bbolt"))
+			if err != nil {
+				return fmt.Errorf("plant stale record: %w", err)
+			}
+			werr := db.Write(func(bm diskstore.BucketManager) error {
+				b, err := bm.Get(cluster.USERCOLSBUCKETKEY)
+				if err != nil {
+					return err
+				}
+				return b.Put([]byte(k), val)
+			})
+			db.Close()
+			if werr != nil {
+				return fmt.Errorf("plant stale record: %w", werr)
+			}
+			planted++
+		}
+		tw.Emit("SPlant", M{"n": planted})
+	}
 	// every node that holds data or is in the new list takes part
 	part := map[int]bool{}
 	for i := range old {
@@ -289,7 +328,7 @@ func RunSync(no int, seed int64, root string, tw *trace.Writer, o SyncOpts) erro
 				cand = append(cand, n)
 			}
 		}
-		if len(cand) > 0 {
+		if len(cand) > 0 && role != "stale" { // (the stale copies are planted in files: no node runs with a fault)
 			faultNode = cand[r.Intn(len(cand))]
 		}
 	}
